@@ -568,6 +568,22 @@ fn actor_step(sh: &ShRef, a: usize) {
     };
     w(sh, |w| IN_SENDER_OP.with(|c| c.set(c.get() + 1)));
     let next = match cur {
+        // cancellation: the caller drops the future of an async send / flush that is still waiting. Nothing it
+        // registered is taken back (watchers stay where they are, in the model too); a cancelled send's item was
+        // never accepted, so it must never be delivered
+        Some(op) if chance(sh, 1, 14) => {
+            w(sh, |w| {
+                w.out.fault("async_op_cancelled");
+                match &op {
+                    AsyncOp::Send { item, .. } => w.log(format!("actor{a} drops its pending async send({item}) (cancelled)")),
+                    AsyncOp::Flush { id, .. } => w.log(format!("actor{a} drops its pending async flush#{id} (cancelled)")),
+                }
+            });
+            if panic::catch_unwind(AssertUnwindSafe(move || drop(op))).is_err() {
+                op_panicked(sh, "dropping a pending async operation");
+            }
+            None
+        }
         Some(op) => poll_async(sh, a, op),
         None => start_op(sh, a, &sender),
     };
